@@ -350,6 +350,9 @@ func (c *fakeConn) QueryContext(ctx context.Context, q string, args []driver.Nam
 	rows := &fakeRows{}
 	if r := c.t.bySecret(secret); r != nil {
 		rows.vals = [][]driver.Value{{r.UUID, `["all"]`, r.UserUUID}}
+		if w := vsim.Cur(); w != nil {
+			w.Probe("token-resolved-by-database")
+		}
 	}
 	return rows, nil
 }
@@ -499,5 +502,16 @@ func randHex(r *vsim.Rand, n int) string {
 // fedSkipKnown: set VERIF_FED_SKIP_KNOWN=1 to keep the generators away from the inputs of
 // findings already reported (used only while testing the sensitivity of the other oracles).
 func fedSkipKnown() bool { return os.Getenv("VERIF_FED_SKIP_KNOWN") == "1" }
+
+// fedIgnored: VERIF_FED_IGNORE=sig1,sig2 turns violations with these signatures into probes
+// (used only to look for further findings behind ones already reported).
+func fedIgnored(sig string) bool {
+	for _, s := range strings.Split(os.Getenv("VERIF_FED_IGNORE"), ",") {
+		if s != "" && s == sig {
+			return true
+		}
+	}
+	return false
+}
 
 func sortedStrings(m map[string]bool) []string { return vsim.SortedKeys(m) }
